@@ -521,7 +521,7 @@ pub(crate) fn c06_rabin_pair_frag() { pair_check::<0, 76, 5, 71, 76, 1>(64, 64, 
 //@ oracle: per step as c06_rabin_pair_0_5 (non-empty, bounded, lossless, continuation, early cut only at a zero fingerprint); relational: both iterators cut the same remaining input at the same place (the cut does not depend on the look-ahead split nor on the hash state left by the previous chunk)
 //@ stub: std::io::Read::read_to_end -> contract model
 //@ assume: ChunkIter invariant between calls: pos <= buf.len()
-//@ outside: the production 64-byte window (c06_rabin_pair_*, experimental); equality with the mathematical fingerprint; other shapes
+//@ outside: a leaked hash state is NOT visible in this instance (with a 2-byte window a stale byte sits above the bits the split mask reads - measured on seed C06-1; c06_rabin_pair_w8 covers it); the production 64-byte window (c06_rabin_pair_*, experimental); equality with the mathematical fingerprint; other shapes
 #[kani::proof]
 #[kani::unwind(30)]
 #[kani::stub(std::backtrace::Backtrace::capture, crate::error::verif_harness::stub_backtrace_capture)]
